@@ -116,7 +116,7 @@ func probeMessages(proto message.Message) []message.Message {
 
 func genC03(o *hx.Out, tier string) {
 	r := hx.NewRand(3)
-	types := append(distinctTypes(), userStructs...)
+	types := append(append(distinctTypes(), userStructs...), userOne...)
 	for _, proto := range types {
 		gs := hx.GoStruct(reflect.TypeOf(proto).Elem())
 		mrw, res := implInit(proto)
